@@ -501,6 +501,9 @@ pub fn run(ctx: &Ctx) {
     ctx.cold("cold_start_g_mul", "fixed-base multiplication as the first library operation of a fresh process (the precomputed table path)", || {
         (0..3u64).map(|i| GM { scalar: Hex(expand_bytes(i ^ 0xc11d, 32)) }).collect()
     }, check_g_mul);
+    ctx.cold("cold_start_concurrent", "eight threads of a fresh process call g_mul / scalar_mul for the first time at the same moment", || {
+        (0..2u64).map(|r| (0..8u64).map(|i| SM { p: PRep { k: Hex(expand_bytes((r << 8 | i) ^ 0xc11a, 32)), lambda: gen::hex32(&BigUint::from(1 + i % 3)) }, scalar: Hex(expand_bytes((r << 8 | i) ^ 0xc11b, 32)) }).collect::<Vec<_>>()).collect::<Vec<_>>()
+    }, |steps: &Vec<SM>| par(steps, |c| { check_g_mul(&GM { scalar: c.scalar.clone() })?; check_scalar_mul(c) }));
     ctx.cold("cold_start_scalar_mul", "variable-base multiplication / addition as the first library operation of a fresh process", || {
         (0..3u64).map(|i| SM { p: PRep { k: Hex(expand_bytes(i ^ 0xc11e, 32)), lambda: gen::hex32(&BigUint::from(1 + i)) }, scalar: Hex(expand_bytes(i ^ 0xc11f, 32)) }).collect()
     }, check_scalar_mul);
